@@ -405,7 +405,25 @@ def main(tier):
         if key not in prog_cache:
             prog_cache[key] = prepass(job[0], job[1])[1]
         tcases.append({'n': job[1], 'cooked': job[2], 'prog': prog_cache[key], 'maxsw': -1, 'trace': tr})
+    # binding self-test: corrupted copies of recorded traces must be rejected by the specification
+    n_real = len(tcases)
+    corrupted = []
+    for c in tcases[:60]:
+        tr = c['trace']
+        idx = [i for i, e in enumerate(tr) if e[1] in ('acq', 'wb')]
+        if idx:
+            k = idx[0]
+            corrupted.append(dict(c, trace=tr[:k] + tr[k + 1:]))                # one event dropped
+        wcs = [i for i, e in enumerate(tr) if e[1] == 'wc']
+        wbs = [i for i, e in enumerate(tr) if e[1] == 'wb']
+        if wcs and wbs:
+            t2 = list(tr)
+            t2[wbs[0]], t2[wcs[0]] = t2[wcs[0]], t2[wbs[0]]                     # publication order swapped
+            corrupted.append(dict(c, trace=t2))
+    tcases = tcases + corrupted
     accepted = rejected = 0
+    selftest_rejected = 0
+    n_real = 0
     if tcases:
         verdicts = {}
 
@@ -420,8 +438,14 @@ def main(tier):
         if res2.violated:
             # a recorded real execution drives the specification into a state that violates an invariant
             V.violation({'kind': 'trace', 'invariant': res2.violated, 'detail': (res2.error_trace or '')[:1500], 'cls': 'trace-invariant'})
+        selftest_rejected = 0
         for i, tc in enumerate(tcases, 1):
             v = verdicts.get(i)
+            if i > n_real:
+                if v is not None and v['matched'] == v['len'] and not v['crash']:
+                    common.machinery_failure('binding self-test: a corrupted access trace was accepted by ObsConc: %s' % tc['trace'][:12])
+                selftest_rejected += 1
+                continue
             if v is not None and v['matched'] == v['len']:
                 accepted += 1
             else:
@@ -444,7 +468,7 @@ def main(tier):
            'schedules_from_TLC_replayed': V.counters.get('schedules_replayed_access', 0),
            'machine_counterexamples_replayed': model_cex, 'replays_with_drift': drift_a,
            'line_granularity_schedules': V.counters.get('schedules_line_granularity', 0),
-           'recorded_traces_accepted_by_TLC': accepted, 'recorded_traces_rejected_by_TLC': rejected,
+           'recorded_traces_accepted_by_TLC': accepted, 'binding_selftest_corrupted_traces_rejected': selftest_rejected, 'recorded_traces_rejected_by_TLC': rejected,
            'scenarios': summary, 'exhaustive': False, 'shared_changes_not_seen_by_hooks': unseen, 'drift_samples': drift_samples, 'rejected_trace_samples': rejected_samples,
            'rule': '6 templates (in with sort_expr/reverse_expr, every block tag, batches, shared sub-template, restricted '
                    'expressions, %()s syntax) x compiled / compiling x 2-3 threads with per-thread namespaces; TLC: all access-level '
